@@ -89,6 +89,31 @@ def run(ctx, replay_case):
                             break
                     if problem is None and k < len(pn):
                         problem = f"rows and events do not correspond one to one in order (row {k}: {pn[k]} has no event at its place)"
+        if problem is None:
+            # bit rows: an attribute word that is not a list element is followed by one bit row per field of its type (pinned
+            # layout; TPM_RC's rows depend on the code's format, so only "some"), every other row — list elements included — by none
+            # (seed C14f: the elements of `list[TPMA_CC]` got bit rows)
+            rows_ = [l.split(" ") for l in prow if l.startswith("P ")]
+            j = 0
+            while j < len(rows_) and problem is None:
+                r = rows_[j]
+                nbits = 0
+                while j + 1 + nbits < len(rows_) and rows_[j + 1 + nbits][1] == "-":
+                    nbits += 1
+                if r[1] != "-":
+                    pr = L["prims"].get(r[1])
+                    is_attr = pr is not None and (pr.get("flavour") == "bitfield" or r[1] == "TPM_RC")
+                    elem = r[3].endswith("]")
+                    has_value = len(r) > 5 and r[4] != "-"
+                    if elem and nbits:
+                        problem = f"bit rows after a list element: row {r[3]} ({r[1]}) is followed by {nbits} bit rows"
+                    elif is_attr and not elem and has_value:
+                        want = len(pr["masks"]) if pr.get("flavour") == "bitfield" else None
+                        if want is not None and nbits != want:      # TPM_RC: the rows depend on the code (none for SUCCESS); C18 decides them
+                            problem = f"bit rows missing or surplus: attribute word {r[3]} ({r[1]}) is followed by {nbits} bit rows, its type has {want if want is not None else 'some'} fields"
+                    elif not is_attr and nbits:
+                        problem = f"bit rows after a value that is no attribute word: row {r[3]} ({r[1]}) is followed by {nbits} bit rows"
+                j += 1 + nbits
         stats["violation" if problem else "ok"] += 1
         if problem and len([v for v in ctx.violations if v.get("signature") == "print:" + problem.split(":")[0][:30]]) < 2:
             ctx.violations.append({"kind": "concrete", "signature": "print:" + problem.split(":")[0][:30], "what": problem,
